@@ -50,12 +50,13 @@ struct c06_pstate
 void (*g_x_h)(void *, int); /* callback and data given to __printf (constant during the call) */
 void *g_x_d;
 
-extern int g_c06_p_minlen; /* precision of the %p call, defined by spec/c06_pform.h (included after printf_impl.c) */
+extern int g_c06_p_minlen;               /* form of the %p call: precision, flag bits forced on / off; */
+extern unsigned g_c06_p_set, g_c06_p_clr; /* defined by spec/c06_pform.h (included after printf_impl.c) */
 #define C06_WP_PRE(width, prec, ops) ((width) >= 0 && (prec) >= 0 && (((ops) & C06_OPS_PREC) || (prec) == 0))
 #define C06_PRINT_I_PRE(u, is_signed, width, min_len, ops, base)                                              \
     ((width) >= 0 &&                                                                                          \
      (((base) == 16 && (is_signed) == 0 && (min_len) == g_c06_p_minlen &&                       \
-       ((ops) & (C06_OPS_SPEC | C06_OPS_ZERO)) == (C06_OPS_SPEC | C06_OPS_ZERO) && (u) == (size_t)(u)) ||     \
+       ((ops) & g_c06_p_set) == g_c06_p_set && ((ops) & g_c06_p_clr) == 0 && (u) == (size_t)(u)) ||     \
       (C06_WP_PRE(width, min_len, ops) &&                                                                     \
        (((base) == 10 && ((is_signed) == 0 || (is_signed) == 1)) || (((base) == 8 || (base) == 16) && (is_signed) == 0)) && \
        (!((ops) & C06_OPS_UPPER) || ((base) == 16 && (is_signed) == 0)))))
@@ -70,7 +71,7 @@ extern int g_c06_p_minlen; /* precision of the %p call, defined by spec/c06_pfor
     (g_x_kind == REF_EV_INT && (u) == g_x_u && (is_signed) == g_x_signed && (base) == g_x_base && (width) == g_x_width && \
      (g_x_conv == 'p'                                                                                        \
           ? ((min_len) == g_c06_p_minlen &&                                                    \
-             ((ops) & (C06_OPS_FMT_MASK & ~C06_OPS_PREC)) == ((g_x_ops | C06_OPS_SPEC | C06_OPS_ZERO) & ~C06_OPS_PREC)) \
+             ((ops) & (C06_OPS_FMT_MASK & ~C06_OPS_PREC)) == (((g_x_ops | g_c06_p_set) & ~g_c06_p_clr) & ~C06_OPS_PREC)) \
           : ((min_len) == g_x_prec && ((ops) & C06_OPS_FMT_MASK) == g_x_ops)))
 #define C06_IS_EXPECTED_STR(str, width, max_len, ops)                                                        \
     (g_x_kind == REF_EV_STR && (width) == g_x_width && (max_len) == g_x_prec && ((ops) & C06_OPS_FMT_MASK) == g_x_ops && \
